@@ -477,6 +477,11 @@ func c20Symmetrical(c *Ctx) {
 				for key, v := range m {
 					if r.IntN(2) == 0 || mode == 2 {
 						m[[2]byte{key[1], key[0]}] = v
+						if v == 0 && r.IntN(2) == 0 {
+							// 0 mirrored as -0 (a rounded table prints "-0" on one side of the diagonal): the same score
+							m[[2]byte{key[1], key[0]}] = math.Copysign(0, -1)
+							k.Count("zero_mirrored_as_minus_zero", 1)
+						}
 					}
 				}
 			}
